@@ -569,6 +569,7 @@ func concurrentReaders(r *RunCtx) {
 	sim.Run()
 	zap.VerifYield, zap.VerifPoolGet, zap.VerifPoolPut = nil, nil, nil
 	r.countN("sim.steps", sim.steps)
+	r.countN("probe.sched.yield-under-lock-recoveries", sim.lockStalls)
 	r.countN("sim.switches", sim.switches)
 	for site, n := range sim.siteCounts {
 		r.countN("probe.yield."+site, n)
